@@ -356,13 +356,15 @@ func (i StringsInspector) Reset(x any) error {
 	case []string:
 		return ErrMustPointerType
 	case *[]string:
-		ss := x.(*[]string)
-		*ss = (*ss)[:0]
+		if ss := x.(*[]string); ss != nil {
+			*ss = (*ss)[:0]
+		}
 	case [][]byte:
 		return ErrMustPointerType
 	case *[][]byte:
-		pp := x.(*[][]byte)
-		*pp = (*pp)[:0]
+		if pp := x.(*[][]byte); pp != nil {
+			*pp = (*pp)[:0]
+		}
 	}
 	return nil
 }
